@@ -10,7 +10,7 @@ import sys, os, json, shutil, subprocess, re, time
 V = "/verif"
 needs = {}
 try:
-    needs = json.load(open("/tmp/seeds/needs7.json"))
+    needs = json.load(open("/tmp/seeds/needs8.json"))
 except Exception:
     pass
 
@@ -38,7 +38,7 @@ for sid in sys.argv[2:]:
     meta = {"id": sid, "property": P, "needs_to_manifest": needs.get(sid, ""),
             "repo_commit": sh("git -C /repo rev-parse --short HEAD")[1],
             "confirmation": {"cmd": "tools/seedconfirm.sh seeded/%s <scratch worktree>" % sid, "result": confirmed},
-            "origin": "fresh sub-agent given only the property text and a scratch worktree (wave 7)"}
+            "origin": "fresh sub-agent given only the property text and a scratch worktree (wave 8)"}
     if confirmed.startswith("CONFIRMED"):
         sh("git -C %s checkout -q -- . ; git -C %s clean -qfd" % (wt, wt))
         rc, out = sh("git -C %s apply %s/patch.diff" % (wt, dst))
